@@ -86,3 +86,49 @@ def lineSlice (keys : List Int) (s : PySlice) : Option (List Int) :=
 
 end Segyio
 end Sgz
+
+namespace Sgz
+namespace Emul
+
+/-- `SubvolumeAccessor._check_subscripts` for one axis (accessors.py:49-60); `coords` has at least two entries -/
+def checkSubscript (coords : List Int) (s : PySlice) : Bool :=
+  let c0 := coords.getD 0 0
+  let c1 := coords.getD 1 0
+  let cl := coords.getD (coords.length - 1) 0
+  let d := c1 - c0
+  let sign : Int := if d > 0 then 1 else -1
+  let first := sign * c0
+  let fin := sign * (cl + d)
+  (match s.start with | none => true | some v => decide (first ≤ sign * v) && decide (sign * v < fin))
+  && (match s.stop with | none => true | some v => decide (first < sign * v) && decide (sign * v ≤ fin))
+  && (match s.step with | none => true | some v => v % d == 0)
+
+/-- first index of `coords` equal to `c` (`coord_to_index`) -/
+def indexOf (coords : List Int) (c : Int) : Option Nat := coords.findIdx? (· == c)
+
+/-- `_get_index_subscripts`: (start index, index step, stop index); `none` = IndexError -/
+def indexSubscript (coords : List Int) (s : PySlice) : Option (Nat × Int × Nat) :=
+  let c0 := coords.getD 0 0
+  let c1 := coords.getD 1 0
+  let cl := coords.getD (coords.length - 1) 0
+  let start := match s.start with | none => some 0 | some v => indexOf coords v
+  let stop := match s.stop with
+    | none => some coords.length
+    | some v => if v == cl + c1 - c0 then some coords.length else indexOf coords v
+  let step : Int := match s.step with | none => 1 | some v => Int.fdiv v (c1 - c0)
+  match start, stop with
+  | some a, some b => some (a, step, b)
+  | _, _ => none
+
+/-- one axis of `subvolume[…]`: the axis indices returned (`read_subvolume(start, stop)[::step]`), or refusal -/
+def subvolumeAxis (coords : List Int) (s : PySlice) : Option (List Int) :=
+  if !checkSubscript coords s then none else
+  match indexSubscript coords s with
+  | none => none
+  | some (a, st, b) =>
+    -- `read_subvolume` refuses an empty / inverted index range; numpy's `[::st]` refuses step 0
+    if b ≤ a then none else
+    (sliceIndices ⟨none, none, some st⟩ (b - a)).map fun (x, y, z) => (pyRange x y z).map (· + (a : Int))
+
+end Emul
+end Sgz
